@@ -23,6 +23,7 @@ var c03Cfgs = []Cfg{{}, {Pretty: true, Indent: -2, Semi: -1}, {Pretty: true, Ind
 
 type c03Payload struct {
 	Edited bool   `json:"edited,omitempty"` // the edited-tree family (re-run as a whole on replay)
+	Deep   []int  `json:"deep,omitempty"`   // the deep-chain family (re-run as a whole on replay)
 	Chain  string `json:"chain"`
 	Place  int    `json:"place"`
 	Depth  int    `json:"depth"`
@@ -66,8 +67,50 @@ func c03Check(prog []*gen.Node, cfg Cfg) (kind, detail, code string) {
 	return "", "", code
 }
 
+// c03Deep: long programmatically built chains (no grouping nodes): left-deep, right-deep and zig-zag over
+// operator cycles, of every length around typical thresholds.
+func c03Deep(c *core.Ctx) {
+	cycles := [][]string{{"+"}, {"-"}, {"+", "*"}, {"*", "+"}, {"-", "/", "%"}, {"||", "&&", "==", "<", "+", "*"}, {"*", "+", "<", "==", "&&", "||"}}
+	sizes := []int{9, 17, 33, 65, 129}
+	if c.Thorough() {
+		sizes = append(sizes, 257, 513)
+	}
+	for _, n := range sizes {
+		for ci, cyc := range cycles {
+			for shape := 0; shape < 3; shape++ {
+				if !c.Next() || c.Tick() {
+					continue
+				}
+				e := gen.I("a")
+				for i := 0; i < n; i++ {
+					op := cyc[i%len(cyc)]
+					leaf := gen.I([]string{"a", "b", "c"}[i%3])
+					switch {
+					case shape == 0 || (shape == 2 && i%2 == 0):
+						e = gen.Bi(op, e, leaf)
+					default:
+						e = gen.Bi(op, leaf, e)
+					}
+				}
+				name := fmt.Sprintf("deep:%d:cycle%d:shape%d", n, ci, shape)
+				c.Cur(name)
+				for pi, cfg := range c03Cfgs {
+					c.Inc("print_parse_roundtrips")
+					c.Inc("deep_tree_roundtrips")
+					k, d, _ := c03Check([]*gen.Node{gen.Ex(e)}, cfg)
+					if k != "" && c.ShrinkOK("deep"+k) {
+						pl, _ := json.Marshal(c03Payload{Deep: []int{n, ci, shape, pi}})
+						c.Violate(core.Violation{Kind: k, Config: cfg.String(), Case: name, Detail: core.Short(d, 500), Payload: pl, Size: 1000 + n})
+					}
+				}
+			}
+		}
+	}
+}
+
 func c03Run(c *core.Ctx) {
 	c03Edited(c)
+	c03Deep(c)
 	full := c.Thorough()
 	holes := gen.Holes(full)
 	leaves := gen.Leaves()
@@ -215,6 +258,11 @@ func c03Replay(pl json.RawMessage) (string, []core.Violation) {
 	json.Unmarshal(pl, &p)
 	var out string
 	var vs []core.Violation
+	if len(p.Deep) > 0 {
+		cx := core.NewCtx("C03", "thorough", 0, 0, 1, time.Now().Add(10*time.Minute))
+		c03Deep(cx)
+		return "deep-chain family re-run", cx.Violations()
+	}
 	if p.Edited {
 		cx := core.NewCtx("C03", "quick", 0, 0, 1, time.Now().Add(10*time.Minute))
 		c03Edited(cx)
